@@ -1,7 +1,7 @@
 (* probe: the comparison branch of Phase.__array_ufunc__ decides on the exact two-part value (C15_cmp) *)
 From Coq Require Import ZArith Reals Psatz Floats.
 From Flocq Require Import Core BinarySingleNaN PrimFloat.
-From PB Require Import Proofs.TwoSumExact Model.Phase2 Proofs.Floor Proofs.DayFrac Proofs.DayFrac3.
+From PB Require Import Proofs.TwoSumExact Model.Phase2 Proofs.Floor Proofs.DayFrac Proofs.DayFrac3 Proofs.DayFracTail Proofs.DayFracFold.
 Open Scope R_scope.
 
 Notation fexp := (FLT_exp (-1074) 53).
